@@ -4,6 +4,7 @@ import (
 	"bytes"
 	"encoding/json"
 	"fmt"
+	"io"
 	"os"
 	"os/exec"
 	"path/filepath"
@@ -259,6 +260,16 @@ func buildOne(r *rng.R, slot int) *sharedObj {
 		return &sharedObj{special: "refused-text", kind: "text", text: texts[r.Intn(len(texts))]}
 	case 15:
 		return &sharedObj{special: "refused-calls", kind: "refused", item: ast.NewListNode("item", ast.NewUintNode(1, "b"))}
+	case 19, 20:
+		// texts whose size declarations carry blanks inside the brackets (legal, never printed): the lexer squeezes them
+		a := 200 + 7*slot
+		txt := fmt.Sprintf("S1F1 W H->E spaced%d\n<L\n  <A[ %d .. %d ] v>\n  <U1[ 2 ] 1 2>\n  <B [ 1 ..\t3 ] 1 2>\n  <A [ %d ] w>\n  <L [ 2 ] <I2[ ..%d ] 5> <F4 [ %d.. ] 1 2 3 4 5 6 7 8 9>>\n> .\n", slot, a, a+3000, a+11, a+1, slot-15)
+		return &sharedObj{special: "spaced-sizes", kind: "text", text: txt}
+	case 21, 22:
+		// templates whose shared count map asks for hundreds of repetitions (names with three-digit indices)
+		n := 300 + 317*(slot-21)
+		tpl := ast.NewListNode(ast.NewListNode(ast.NewUintNode(1, "d"), ast.NewASCIINodeVariable("t", 0, -1)), "...")
+		return &sharedObj{special: "many-repetitions", kind: "item", item: tpl, fill: map[string]interface{}{}, counts: map[string]interface{}{"...": n}}
 	case 17, 18:
 		// long float arrays (an encoder that farms out chunks of a long array must give every caller its own chunks back)
 		n, size := 20000, 4
@@ -821,7 +832,8 @@ func c17Parent(c *ctx) int {
 	exe, _ := os.Executable()
 	cmd := exec.Command(exe, os.Args[1:]...)
 	cmd.Env = append(os.Environ(), "VERIF_C17_CHILD=1")
-	cmd.Stdout = os.Stdout
+	var outBuf bytes.Buffer
+	cmd.Stdout = io.MultiWriter(os.Stdout, &outBuf)
 	var errBuf bytes.Buffer
 	cmd.Stderr = &errBuf
 	// a generous wall-clock limit (the driver normally needs well under a minute in the quick tier): when it expires
@@ -878,6 +890,15 @@ func c17Parent(c *ctx) int {
 			c.NoteBulk(2, 2)
 			c.Sample(map[string]interface{}{"driver": "hung", "limit_minutes": limit.Minutes(), "goroutine_dump_head": firstLines(head, 40)})
 			c.Violation("C17/driver-hung-inside-the-library", fmt.Sprintf("after %v the concurrent driver had not finished; the goroutine dump shows %d library frames, all in goroutines parked on locks or channels: %s", limit, blocked, firstLines(head, 12)), c17Case{Note: head})
+			return c.Finish()
+		}
+		if n := strings.Count(outBuf.String(), "VIOLATION property=C17"); n > 0 {
+			// the driver had already reported violations (they are on stdout, with their replay files) when it ran out of
+			// time, typically because thousands of race reports were being written: the verdict stands
+			c.Rule = "the concurrent driver reported violations and then did not finish within its wall-clock limit; see its VIOLATION lines"
+			c.NoteBulk(2, 2)
+			c.Sample(map[string]interface{}{"driver": "did not finish", "limit_minutes": limit.Minutes(), "violations_reported_before": n})
+			c.Violation("C17/driver-did-not-finish-after-reporting-violations", fmt.Sprintf("the driver printed %d VIOLATION lines and had not finished after %v", n, limit), c17Case{Note: firstLines(outBuf.String(), 20)})
 			return c.Finish()
 		}
 		os.Stderr.WriteString(head)
